@@ -164,9 +164,34 @@ def leaf(ctx):
     ok = bool(rs)
     for ex, r in rs:
         ats = atoms_of(py_guard(r))
-        strict = [a for a in ats if a in (("p", fn.fi.qualname, "kw:lhs_strict", "lhs_strict"), ("p", fn.fi.qualname, "kw:rhs_strict", "rhs_strict"))]
+        S_L, S_R = ("p", fn.fi.qualname, "kw:lhs_strict", "lhs_strict"), ("p", fn.fi.qualname, "kw:rhs_strict", "rhs_strict")
+        strict = [a for a in ats if a in (S_L, S_R)]
         vc = [a for a in ats if pmatch("isinstance(Q_x, ValueCastable)", a)]
-        ok = ok and len(strict) == 2 and len(vc) == 2
+        ex_ = [a for a in ats if pmatch("isinstance(Q_x, Q_types)", a) and pmatch("isinstance(Q_x, Q_types)", a)["types"][0] in ("tuple", "list") and a not in vc]
+        eqs = [a for a in ats if pmatch("shape_of(Q_a) == shape_of(Q_b)", a)]
+        ok = ok and len(strict) == 2 and len(vc) == 2 and len(ex_) == 2 and len(eqs) == 1
+        if ok:
+            # documented condition of the width check: either side is a View/ValueCastable, or both sides have an explicitly
+            # defined shape (strict = field of a View, or a Signal / ArrayProxy / Slice / ValueCastable).  Compared as the
+            # projection of the raise guard onto these seven atoms (the branch-selection atoms are independent of them).
+            from ..logic import evalf, valuations
+
+            side = lambda a: "l" if any(x[0] == "loopvar" and x[1] == "lhs" or x == LHS for x in subterms(a)) else "r"  # noqa: E731
+            vl = [a for a in vc if side(a) == "l"]
+            vr = [a for a in vc if side(a) == "r"]
+            el = [a for a in ex_ if side(a) == "l"]
+            er = [a for a in ex_ if side(a) == "r"]
+            ok = len(vl) == len(vr) == len(el) == len(er) == 1
+            if ok:
+                key = [vl[0], vr[0], S_L, S_R, el[0], er[0], eqs[0]]
+                others = [a for a in ats if a not in key]
+                g = py_guard(r)
+                for val in valuations(key):
+                    ref = (val[vl[0]] or val[vr[0]] or ((val[S_L] or val[el[0]]) and (val[S_R] or val[er[0]]))) and not val[eqs[0]]
+                    got = any(evalf(g, {**val, **v2}) for v2 in valuations(others))
+                    if got != ref:
+                        ok = False
+                        break
     ctx.check(ok, "C40.shape-mismatch-raises", rs[0][1].site if rs else fn.site, "assign.shape-mismatch", found=f"{len(rs)} raise(s)", required="a shape mismatch raises when either side is a ValueCastable or both sides are strict / have explicit shapes")
     for text, what in (("Fields on assigning non-structures", "an explicit field selection on non-structures"), ("Unsupported assignment", "a non-value operand")):
         rr = [(ex, r) for ex, r in fn.facts(Raise) if text in tstr(r.exc)]
